@@ -87,15 +87,31 @@ class _Walker:
         self.params = params
         self.outer = outer          # names bound before the loop (outside the body)
         self.inner = set()
+        self.alias = set()          # names bound inside the body to a view of a shared array
+        self.scalars = set()
         self.writes = []            # (array, shared, position, guard0)
         self.reductions = []
         self.stored_arrays = set()
         self.loads = []             # (array) subscript loads, filtered afterwards
 
     def shared(self, name):
-        return name in self.params or (name in self.outer and name not in self.inner)
+        return name in self.params or name in self.alias or (name in self.outer and name not in self.inner)
 
-    def target(self, t, guard0):
+    def aliases_shared(self, e):
+        while True:
+            if isinstance(e, ast.Attribute) and e.attr == 'T':
+                e = e.value
+            elif isinstance(e, ast.Call) and isinstance(e.func, ast.Attribute) and e.func.attr in ('reshape', 'transpose', 'swapaxes', 'view', 'ravel'):
+                e = e.func.value
+            else:
+                break
+        if isinstance(e, ast.Subscript) and isinstance(e.value, ast.Name):
+            return self.shared(e.value.id)
+        if isinstance(e, ast.Name):
+            return self.shared(e.id) and e.id not in self.scalars
+        return False
+
+    def target(self, t, guard0, value=None):
         if isinstance(t, ast.Subscript):
             if not isinstance(t.value, ast.Name):
                 raise C.TranslateError('store through a non-name subscript base')
@@ -108,7 +124,10 @@ class _Walker:
             for ix in _indices(t):
                 self.expr(ix)
         elif isinstance(t, ast.Name):
-            self.inner.add(t.id)
+            if value is not None and self.aliases_shared(value):
+                self.alias.add(t.id)          # a view of a shared array (conservative: any subscript of it, through .T / reshape / transpose)
+            else:
+                self.inner.add(t.id)
         elif isinstance(t, ast.Tuple):
             for e in t.elts:
                 self.target(e, guard0)
@@ -127,7 +146,7 @@ class _Walker:
             if isinstance(s, ast.Assign):
                 self.expr(s.value)
                 for t in s.targets:
-                    self.target(t, guard0)
+                    self.target(t, guard0, s.value)
             elif isinstance(s, ast.AugAssign):
                 self.expr(s.value)
                 if isinstance(s.target, ast.Name):
